@@ -19,6 +19,7 @@ import (
 	"github.com/LemoFoundationLtd/lemochain-core/chain/params"
 	"github.com/LemoFoundationLtd/lemochain-core/chain/types"
 	"github.com/LemoFoundationLtd/lemochain-core/common"
+	"github.com/LemoFoundationLtd/lemochain-core/common/crypto"
 	"github.com/LemoFoundationLtd/lemochain-core/common/log"
 )
 
@@ -68,6 +69,8 @@ type ledger struct {
 	nextID int
 	// ground truth of multisig configuration and who is candidate, maintained from observed state
 	mode    string
+	curHeight uint32 // height of the block being described
+	byNodeID  map[string]*ecdsa.PrivateKey
 	actorOf map[common.Address]string // account address -> name of its key (users, genesis deputies, income addresses)
 }
 
@@ -107,12 +110,7 @@ func (l *ledger) view(h common.Hash, a common.Address) acctView {
 	acc := am.GetAccount(a)
 	p := acc.GetCandidate()
 	v := acctView{bal: acc.GetBalance(), votes: acc.GetVotes(), voteFor: acc.GetVoteFor(), signers: acc.GetSigners()}
-	switch p[types.CandidateKeyIsCandidate] {
-	case types.IsCandidateNode:
-		v.isCand = 1
-	case types.NotCandidateNode:
-		v.isCand = 2
-	}
+	v.isCand = flagCode(p[types.CandidateKeyIsCandidate])
 	v.deposit = p[types.CandidateKeyDepositAmount]
 	if s, ok := p[types.CandidateKeyIncomeAddress]; ok && s != "" {
 		if ia, err := common.StringToAddress(s); err == nil {
@@ -121,6 +119,33 @@ func (l *ledger) view(h common.Hash, a common.Address) acctView {
 		}
 	}
 	return v
+}
+
+// flagCode: the four states the code distinguishes in profile[isCandidate] (it never validates the value):
+// 0 = absent or "", 1 = "true", 2 = "false", 3 = any other string.
+func flagCode(s string) int {
+	switch s {
+	case "":
+		return 0
+	case types.IsCandidateNode:
+		return 1
+	case types.NotCandidateNode:
+		return 2
+	}
+	return 3
+}
+
+// isTempOf: the harness's own reading of verifyTempAddress — version byte 0x03 and bytes 1..9 = the creator's last 9 bytes.
+func isTempOf(creator, temp common.Address) bool {
+	if temp[0] != 0x03 {
+		return false
+	}
+	for i := 0; i < 9; i++ {
+		if temp[1+i] != creator[common.AddressLength-9+i] {
+			return false
+		}
+	}
+	return true
 }
 
 func (l *ledger) dump(h common.Hash) string {
@@ -194,17 +219,23 @@ func (l *ledger) txLine(kw string, lt *ledgerTx) string {
 	case params.RegisterTx:
 		p := make(types.Profile)
 		if json.Unmarshal(tx.Data(), &p) == nil {
-			unreg := 0
-			if p[types.CandidateKeyIsCandidate] == types.NotCandidateNode {
-				unreg = 1
+			// the flag as written in the tx (key absent = buildProfile's default "true"); income 0 = key absent
+			// (the MODEL applies buildProfile's default tx.From); is the named node a deputy at this height?
+			flag := 1
+			if fs, ok := p[types.CandidateKeyIsCandidate]; ok {
+				flag = flagCode(fs)
 			}
-			inc := tx.From()
+			inc := 0
 			if s, ok := p[types.CandidateKeyIncomeAddress]; ok {
 				if ia, err := common.StringToAddress(s); err == nil {
-					inc = ia
+					inc = l.label(ia)
 				}
 			}
-			kind = fmt.Sprintf("register %s %d %d", tx.Amount().String(), unreg, l.label(inc))
+			nd := 0
+			if id := p[types.CandidateKeyNodeID]; id != "" && l.n.DM.IsNodeDeputy(l.curHeight, common.FromHex(id)) {
+				nd = 1
+			}
+			kind = fmt.Sprintf("register %s %d %d %d", tx.Amount().String(), flag, inc, nd)
 		}
 	case params.ModifySignersTx:
 		var ms struct {
@@ -215,7 +246,11 @@ func (l *ledger) txLine(kw string, lt *ledgerTx) string {
 			for _, s := range ms.Signers {
 				ss = append(ss, fmt.Sprintf("%d:%d", l.label(s.Address), s.Weight))
 			}
-			kind = fmt.Sprintf("setsigners %d %s", l.label(*tx.To()), strings.Join(append([]string{"-"}, ss...), " "))
+			tok := 0
+			if isTempOf(tx.From(), *tx.To()) {
+				tok = 1
+			}
+			kind = fmt.Sprintf("setsigners %d %d %s", l.label(*tx.To()), tok, strings.Join(append([]string{"-"}, ss...), " "))
 		}
 	case params.BoxTx:
 		kind = fmt.Sprintf("box %d", len(lt.subs))
@@ -346,14 +381,27 @@ func ledgerEpoch(c *Ctx, mode string, nBlocks int, epoch int) {
 			other = extraNames[rnd.Intn(len(extraNames))]
 		}
 		ok_ := l.key(other)
-		kinds := []string{"transfer", "transfer", "transfer", "overdraft", "vote", "vote", "register", "topup", "unregister", "box", "boxfail", "payer", "payer-unsigned", "wrongkey", "setsigners", "ms-ok", "ms-dup", "ms-mall", "ms-short", "ms-ownkey", "extrasig", "pricey", "zero", "tamper", "tamper-box", "payer-self-forged"}
+		kinds := []string{"transfer", "transfer", "transfer", "overdraft", "vote", "vote", "register", "topup", "unregister", "box", "boxfail", "payer", "payer-unsigned", "wrongkey", "setsigners", "ms-ok", "ms-dup", "ms-mall", "ms-short", "ms-ownkey", "extrasig", "pricey", "zero", "tamper", "tamper-box", "payer-self-forged", "flag", "payer-other-kind", "setsigners-var"}
 		switch l.mode {
 		case "c11":
-			kinds = []string{"transfer", "transfer", "vote", "vote", "vote", "register", "topup", "unregister", "box", "payer"}
+			kinds = []string{"transfer", "transfer", "vote", "vote", "vote", "register", "topup", "unregister", "box", "payer", "flag", "payer-other-kind"}
 		case "c06":
-			kinds = []string{"transfer", "payer", "payer-unsigned", "wrongkey", "setsigners", "ms-ok", "ms-dup", "ms-mall", "ms-short", "ms-ownkey", "ms-ownkey", "extrasig", "tamper", "tamper-box", "payer-self-forged", "box"}
+			kinds = []string{"transfer", "payer", "payer-unsigned", "wrongkey", "setsigners", "ms-ok", "ms-dup", "ms-mall", "ms-short", "ms-ownkey", "ms-ownkey", "extrasig", "tamper", "tamper-box", "payer-self-forged", "box", "setsigners-var", "setsigners-var", "payer-other-kind"}
 		}
 		k := kinds[rnd.Intn(len(kinds))]
+		switch k {
+		case "flag":
+			// RegisterTx whose isCandidate flag is not what the handlers expect (the value is never validated), and what
+			// follows from it. Rare: such an account is lost as a candidate for the rest of the epoch.
+			k = "transfer"
+			if rnd.Intn(2) == 0 {
+				k = []string{"register-flag-false", "register-flag-false", "register-flag-blank", "register-flag-odd", "topup-flag-blank", "topup-flag-odd", "reregister-blank", "reregister-blank", "vote-odd", "vote-odd", "register-dupnode"}[rnd.Intn(11)]
+			}
+		case "payer-other-kind":
+			k = []string{"payer-vote", "payer-vote", "payer-register", "payer-topup", "payer-unregister"}[rnd.Intn(5)]
+		case "setsigners-var":
+			k = []string{"setsigners-many", "setsigners-badweight", "setsigners-101", "setsigners-repeat-addr", "setsigners-temp-ok", "setsigners-temp-ok", "setsigners-temp-wrongtype", "setsigners-temp-wrongcreator", "setsigners-temp-again", "setsigners-light"}[rnd.Intn(10)]
+		}
 		if l.mode != "c06" && (rnd.Intn(12) == 0 || nearBoundary && rnd.Intn(4) == 0) {
 			// candidates leaving around the term boundary, ex-candidates / income addresses that vote
 			k = []string{"unregister-cand", "exvote", "exvote", "incomevote", "incomevote", "register", "vote"}[rnd.Intn(7)]
@@ -388,6 +436,141 @@ func ledgerEpoch(c *Ctx, mode string, nBlocks int, epoch int) {
 		if (k == "unregister" || k == "unregister-cand") && len(cands) <= 2 {
 			// unregistering is for ever: keep the world supplied with candidates
 			k = "transfer"
+		}
+		regDeposit := func() *big.Int { return lemo(int64(1000 + rnd.Intn(4)*50 + rnd.Intn(3))) }
+		withFlag := func(v string) map[string]string { return map[string]string{types.CandidateKeyIsCandidate: v} }
+		switch k {
+		case "register-flag-false":
+			// a FIRST registration that says isCandidate:"false": registerCandidate stores the flag as it is — an
+			// "unregistered candidate" with a deposit and deposit votes
+			return mk(txRegister(uk, regDeposit(), l.key("node-"+u), false, withFlag(types.NotCandidateNode), TxOpt{Exp: exp(), Msg: u_("rff")}), k, u)
+		case "register-flag-blank":
+			return mk(txRegister(uk, regDeposit(), l.key("node-"+u), false, withFlag(""), TxOpt{Exp: exp(), Msg: u_("rfb")}), k, u)
+		case "register-flag-odd":
+			return mk(txRegister(uk, regDeposit(), l.key("node-"+u), false, withFlag("maybe"), TxOpt{Exp: exp(), Msg: u_("rfo")}), k, u)
+		case "topup-flag-blank", "topup-flag-odd":
+			// a registered candidate's update tx: modifyCandidateInfo copies the flag over the stored one
+			if nm, ok := pick(cands); ok && len(cands) > 2 {
+				v := ""
+				if k == "topup-flag-odd" {
+					v = "maybe"
+				}
+				return mk(txRegister(l.key(nm), lemo(int64(rnd.Intn(3)*130)), l.key("node-"+nm), false, withFlag(v), TxOpt{Exp: exp(), Msg: u_("tf")}), k, nm)
+			}
+			k = "transfer"
+		case "reregister-blank":
+			// an account whose stored flag is "" (but which holds a deposit and votes) registers AGAIN
+			var blanks []common.Address
+			for _, a := range l.univ {
+				if v := l.view(head, a); v.isCand == 0 && v.deposit != "" {
+					blanks = append(blanks, a)
+				}
+			}
+			if nm, ok := pick(blanks); ok {
+				extra := map[string]string{}
+				if rnd.Intn(3) == 0 {
+					extra = withFlag("")
+				}
+				return mk(txRegister(l.key(nm), regDeposit(), l.key("node-"+nm), false, extra, TxOpt{Exp: exp(), Msg: u_("rrb")}), k, nm)
+			}
+			k = "register-flag-blank"
+			return mk(txRegister(uk, regDeposit(), l.key("node-"+u), false, withFlag(""), TxOpt{Exp: exp(), Msg: u_("rfb")}), k, u)
+		case "vote-odd":
+			// a vote for an account whose flag is neither "true" nor "false" nor "": CallVoteTx accepts it
+			var odd []common.Address
+			for _, a := range l.univ {
+				if l.view(head, a).isCand == 3 {
+					odd = append(odd, a)
+				}
+			}
+			if len(odd) > 0 {
+				return mk(txVote(uk, odd[rnd.Intn(len(odd))], TxOpt{Exp: exp(), Msg: u_("vo")}), k, u)
+			}
+			k = "register-flag-odd"
+			return mk(txRegister(uk, regDeposit(), l.key("node-"+u), false, withFlag("maybe"), TxOpt{Exp: exp(), Msg: u_("rfo")}), k, u)
+		case "register-dupnode":
+			// a second account announces the node id of a SITTING deputy: IsNodeDeputy goes by node id, so its refund is
+			// postponed like a deputy's although it never was one
+			ds := n.DM.GetDeputiesByHeight(parent.Height()+1, true)
+			if len(ds) > 0 {
+				if nk := l.nodeKeyByID(ds[rnd.Intn(len(ds))].NodeID); nk != nil {
+					return mk(txRegister(uk, regDeposit(), nk, false, nil, TxOpt{Exp: exp(), Msg: u_("rdn")}), k, u)
+				}
+			}
+			k = "register"
+		case "payer-vote":
+			var cand common.Address
+			if len(cands) > 0 {
+				cand = cands[rnd.Intn(len(cands))]
+			} else {
+				cand = keyAddr(ok_)
+			}
+			lt := mk(txVote(uk, cand, TxOpt{Exp: exp(), Msg: u_("pv"), Payer: l.key(other)}), k, u)
+			lt.payerKeys = []string{other}
+			return lt
+		case "payer-register", "payer-topup", "payer-unregister":
+			amt, unreg := regDeposit(), false
+			if k == "payer-topup" {
+				amt = lemo(int64(rnd.Intn(260)))
+			} else if k == "payer-unregister" {
+				amt, unreg = new(big.Int), true
+			}
+			lt := mk(txRegisterPaid(uk, amt, l.key("node-"+u), unreg, l.key(other), TxOpt{Exp: exp(), Msg: u_("pr")}), k, u)
+			lt.payerKeys = []string{other}
+			return lt
+		case "setsigners-many", "setsigners-badweight", "setsigners-101", "setsigners-repeat-addr", "setsigners-light":
+			var ss types.Signers
+			var keys []string
+			nSig := 4 + rnd.Intn(9)
+			if k == "setsigners-101" {
+				nSig = 101
+			}
+			for i := 0; i < nSig; i++ {
+				nm := userNames[i%len(userNames)]
+				addr := keyAddr(l.key(nm))
+				if i >= len(userNames) {
+					addr = keyAddr(detKey(fmt.Sprintf("signer-%d", i))) // distinct filler addresses (never sign)
+				} else {
+					keys = append(keys, nm)
+				}
+				wgt := uint8(10 + rnd.Intn(30))
+				if k == "setsigners-light" {
+					wgt = uint8(1 + rnd.Intn(5)) // total stays below 100
+				}
+				ss = append(ss, types.SignAccount{Address: addr, Weight: wgt})
+			}
+			switch k {
+			case "setsigners-badweight":
+				ss[rnd.Intn(len(ss))].Weight = []uint8{0, 101, 200, 255}[rnd.Intn(4)]
+			case "setsigners-repeat-addr":
+				ss[len(ss)-1].Address = ss[0].Address
+			}
+			lt := mk(txModifySigners(uk, keyAddr(uk), ss, TxOpt{Exp: exp(), GasLimit: 4000000, Msg: u_("ssv")}), k, u)
+			pendingMS[lt.id] = struct {
+				acct string
+				keys []string
+			}{u, keys}
+			return lt
+		case "setsigners-temp-ok", "setsigners-temp-wrongtype", "setsigners-temp-wrongcreator", "setsigners-temp-again":
+			// from != to: the target must be a temp address built from the sender's last 9 bytes, without signers so far
+			var uid [10]byte
+			uid[0] = byte(rnd.Intn(3)) // few distinct temp accounts per sender: "again" re-targets one of them
+			creator := keyAddr(uk)
+			target := crypto.CreateTempAddress(creator, uid)
+			switch k {
+			case "setsigners-temp-wrongtype":
+				target[0] = 0x01
+			case "setsigners-temp-wrongcreator":
+				target = crypto.CreateTempAddress(keyAddr(ok_), uid)
+				if ok_ == uk {
+					target[5] ^= 0x40
+				}
+			}
+			ss := types.Signers{{Address: keyAddr(uk), Weight: 60}, {Address: keyAddr(ok_), Weight: 50}}
+			if ok_ == uk {
+				ss = types.Signers{{Address: keyAddr(uk), Weight: 100}}
+			}
+			return mk(txModifySigners(uk, target, ss, TxOpt{Exp: exp(), Msg: u_("sst")}), k, u)
 		}
 		switch k {
 		case "unregister-cand":
@@ -717,6 +900,7 @@ func ledgerEpoch(c *Ctx, mode string, nBlocks int, epoch int) {
 	prevDeputies := ""
 	for blk := 0; blk < nBlocks; blk++ {
 		height := parent.Height() + 1
+		l.curHeight = height
 		phase := height % termT
 		isSnapshot := deputynode.IsSnapshotBlock(height)
 		isReward := deputynode.IsRewardBlock(height)
@@ -770,7 +954,25 @@ func ledgerEpoch(c *Ctx, mode string, nBlocks int, epoch int) {
 				cand = append(cand, genTx(parent.Hash()))
 			}
 		}
+		// the miner only ever sees what its pool admitted: a candidate that fails VerifyTxBody never reaches ApplyTxs
+		{
+			var kept []*ledgerTx
+			for _, lt := range cand {
+				if e := lt.tx.VerifyTxBody(nodeChainID, uint64(t), false); e != nil {
+					c.Count("cand:refused-by-pool(VerifyTxBody):" + lt.class)
+					continue
+				}
+				kept = append(kept, lt)
+			}
+			cand = kept
+		}
 		minerAddr, k, err := l.inTurn(parent, t)
+		for tries := 0; err == errSlotUnmineable && tries < 8; tries++ {
+			// that deputy cannot produce: the next one takes over after the timeout
+			c.Count("block:slot-skipped(duplicate-node-id)")
+			t += uint32(w.Timeout / 1000)
+			minerAddr, k, err = l.inTurn(parent, t)
+		}
 		if err != nil {
 			// (e.g. a term without deputies) — a finding of C10's area, not of this scenario
 			c.Fail("c10/ledger-scenario-stopped", fmt.Sprintf("height %d: %v", height, err), nil)
@@ -851,6 +1053,11 @@ func ledgerEpoch(c *Ctx, mode string, nBlocks int, epoch int) {
 				c.Fail("c05/reward-block-schedule", fmt.Sprintf("block %d: IsRewardBlock=%v but LoadRefundCandidates called=%v", height, isReward, rec.called), nil)
 			}
 			if e := n.Insert(CloneBlock(b)); e != nil {
+				if os.Getenv("HX_DEBUG") != "" {
+					log.Setup(log.LevelDebug, false, true)
+					n.Insert(CloneBlock(b))
+					log.Setup(log.LevelCrit, false, false)
+				}
 				c.Fail("c01/honest-block-rejected", fmt.Sprintf("block %d built by the miner path is rejected by the validator path: %v; classes=%v", b.Height(), e, classesOf(cand)), nil)
 				return "rejected"
 			}
@@ -1207,6 +1414,10 @@ func (l *ledger) oracles(b *types.Block, invalid types.Transactions, byHash map[
 					class := "other"
 					if voteTouched[a] {
 						class = "block-with-vote-tx"
+					} else if pv := l.view(b.ParentHash(), a); regBy[a] && pv.isCand == 0 && pv.deposit != "" {
+						// an account whose flag was blanked (it kept deposit, votes and voters) went through the
+						// FIRST-registration path again: votes := new deposit votes, the voters' weight is dropped
+						class = "blank-flag-account-registered-again"
 					} else if regBy[a] {
 						class = "block-with-register-tx"
 					} else if rf != nil {
@@ -1219,10 +1430,39 @@ func (l *ledger) oracles(b *types.Block, invalid types.Transactions, byHash map[
 				} else {
 					c.Count("tally:ok")
 				}
-			} else if v.isCand == 2 && v.votes.Sign() != 0 {
-				if l.tallyOK(b.ParentHash(), a) {
-					c.Fail("c11/unregistered-has-votes", fmt.Sprintf("block %d: unregistered candidate %d has %s votes", b.Height(), l.label(a), v.votes.String()), nil)
+			} else if (v.isCand == 2 || v.isCand == 0) && v.votes.Sign() != 0 {
+				// "an unregistered candidate has zero votes": reported in the block that brings the state about
+				pv := l.view(b.ParentHash(), a)
+				if !((pv.isCand == 2 || pv.isCand == 0) && pv.votes.Sign() != 0) {
+					class := "other"
+					switch {
+					case v.isCand == 2 && pv.isCand == 0:
+						class = "first-registration-with-flag-false"
+					case v.isCand == 0 && pv.isCand == 0:
+						class = "first-registration-with-blank-flag"
+					case v.isCand == 0 && pv.isCand == 1:
+						class = "blank-flag-written-by-update"
+					}
+					c.Fail("c11/unregistered-has-votes/"+class, fmt.Sprintf("block %d: account %d has isCandidate=%q (not a candidate for CallVoteTx / the vote pass), deposit %q and %s votes", b.Height(), l.label(a), map[int]string{0: "", 2: "false"}[v.isCand], v.deposit, v.votes.String()), nil)
+					c.Count("flag:unregistered-with-votes:" + class)
 				}
+			} else if v.isCand == 3 {
+				// a flag value that is neither "true" nor "false" nor "": CallVoteTx accepts votes for the account, the vote
+				// pass and re-votes ignore it (count frozen), RegisterOrUpdateToCandidate answers ErrIsCandidate for ever
+				// (no top-up, no unregistration, no refund of the deposit)
+				if pv := l.view(b.ParentHash(), a); pv.isCand != 3 {
+					class := "first-registration"
+					if pv.isCand == 1 {
+						class = "written-by-update"
+					}
+					c.Fail("c11/odd-flag-candidate/"+class, fmt.Sprintf("block %d: account %d now has an isCandidate flag that is neither \"true\" nor \"false\": votable, vote count frozen, deposit %q locked", b.Height(), l.label(a), v.deposit), nil)
+					c.Count("flag:odd-flag-candidate:" + class)
+				} else if v.votes.Cmp(pv.votes) != 0 {
+					c.Count("flag:odd-flag-candidate:receives-votes")
+				}
+			}
+			if pv := l.view(b.ParentHash(), a); pv.isCand == 0 && pv.deposit != "" && v.deposit != "" && v.deposit != pv.deposit && regBy[a] {
+				c.Count("flag:blank-flag-account-registered-again(first-deposit-stays-in-pool)")
 			}
 		}
 		if votesMoved {
